@@ -255,6 +255,24 @@ FIXED = [
 ]
 
 
+def gen_preserve_nested(rng):
+    """a short inline element that fits the line and contains an xml:space="preserve" descendant whose nested child
+    elements (without a directive of their own) hold texts with runs of spaces / leading / trailing whitespace"""
+    def ws_text():
+        return rng.choice(["  return  1", "if  x:", " a  b ", "x   y", "\tq  r", "  z", "w  "])
+    kw = ("tag", "", rng.choice(["kw", "b", "i"]), [], [("text", ws_text())])
+    deeper = ("tag", "", "s", [], [("text", ws_text()), kw])
+    inner_kids = [("text", ws_text())] + rng.choice([[kw], [deeper], [kw, ("text", ws_text())]])
+    code = ("tag", "", "code", [pp.space_attr("preserve")], inner_kids)
+    holder = rng.choice([code, ("tag", "", "q", [], [("text", "c "), code]), ("tag", "", "q", [], [code])])
+    lead = [("text", rng.choice(["see ", "aa bb ", ""]))] if rng.random() < 0.8 else []
+    tail = [("text", rng.choice([" more", " cc dd", "x"]))] if rng.random() < 0.7 else []
+    t = ("tag", "", "p", [], [k for k in lead if k[1]] + [holder] + tail)
+    if rng.random() < 0.4:
+        t = ("tag", "", "r", [], [t])
+    return to_xml(t), (rng.choice([40, 80, 80]), rng.choice(pp.INDENTS))
+
+
 def gen_docs(ctx, n):
     docs = []
     for _ in range(n):
@@ -267,6 +285,9 @@ def gen_docs(ctx, n):
     for _ in range(n // 7):
         xml, hint = gen_coincidence(ctx.rng)
         docs.append(("coincidence", xml, hint))
+    for _ in range(max(6, n // 12)):
+        xml, hint = gen_preserve_nested(ctx.rng)
+        docs.append(("preserve-nested", xml, hint))
     # deep chains (9-12 nested elements): indentation of lines 8 and more levels below the serialization root
     for d, ds in ([(9, True), (11, False)] if ctx.tier == "quick" else [(9, True), (10, False), (12, True), (12, False)]):
         docs.append(("deep", to_xml(pp.gen_deep_chain(ctx.rng, d, data_style=ds)), ctx.rng.choice([8, 12, 20, 40])))
@@ -292,7 +313,7 @@ def run(ctx, args):
         rule="documents: fixed cases + random mixed-content documents of depth <= 3 (texts with words whose ends are "
              "biased to width-1/width/width+1, long unbreakable words, escaped characters, comments/PIs between texts, "
              "empty elements, attributes, xml:space preserve/default/invalid at any depth, preserved content with "
-             "newlines) + conventionally laid out documents + chains of 9-12 nested elements; parsed with reduce_whitespace; serialized from the root and "
+             "newlines, preserved elements with nested children holding runs of spaces inside inline elements that fit the line) + conventionally laid out documents + chains of 9-12 nested elements; parsed with reduce_whitespace; serialized from the root and "
              "from sampled sub-trees with indentation in {'', ' ', '  ', '\\t', ' \\t'} x width in {0..12, 20, 40, 80} x "
              "align in {F, T} (option sets drawn per tree; widths biased to the document's word lengths). "
              "One evaluation = one (tree, options) output compared byte for byte with the model and re-read through the "
